@@ -19,6 +19,8 @@ def build(tier):
                         descr='claim created with term_start = now, for the calling provider, copying the allocation terms', bounds='1 sector, 1 claim', max_paths=60000))
     from . import miner_ext, miner_formulas
     O += miner_ext.build_for(tier)
+    from . import miner_replica
+    O += miner_replica.build_extend_inner('C10', tier)
     O += miner_formulas.build_qa(tier)
     from . import miner_activate
     O += miner_activate.build_for('C10', tier)
